@@ -428,7 +428,7 @@ Definition roundtrip_ok (emd : bool) (io : iobj) : Prop :=
   end.
 
 (* what the reader holds afterwards: a member that was still undecoded comes back as the decoded object *)
-Definition decoded (io : iobj) : iobj := deref_for_write true io.
+Definition decoded (io : iobj) : iobj := deref_for_write io.
 
 Section IObj.
   Variables (strE strD stmE stmD : bytes -> res bytes).
@@ -470,7 +470,7 @@ Section IObj.
     read_emitted strD stmD emd (filters_of io) e = Ok (decoded io).
   Proof.
     intros emd to_os io e Hok H. unfold write_iobj in H. unfold decoded.
-    assert (Hf : filters_of io = filters_of (deref_for_write true io)) by (destruct io; reflexivity).
+    assert (Hf : filters_of io = filters_of (deref_for_write io)) by (destruct io; reflexivity).
     rewrite Hf. apply (keyed_roundtrip emd to_os); [| |exact H].
     - intros o Heq. destruct io; simpl in Heq; discriminate.
     - destruct io; simpl in *; auto.
@@ -612,7 +612,7 @@ Definition wit_c : cparams :=
      cp_key := [1; 2; 3; 4; 5]; cp_aes := false; cp_r := 2%Z; cp_obj := 12%Z; cp_gen := 0%Z |}.
 
 (* a still-undecoded object-stream member: with a key it is decoded, enciphered and comes back as the
-   decoded object; without a key the fast path copies it verbatim *)
+   decoded object *)
 Lemma lazy_roundtrip : forall c,
   (forall k b, len16 b -> cp_adec c k (cp_aenc c k b) = b) ->
   (forall k b, len16 b -> len16 (cp_aenc c k b)) ->
@@ -624,10 +624,6 @@ Proof.
   intros c Hinv Hlen strE stmE Hs Hm emd to_os o e H.
   apply (object_roundtrip c Hinv Hlen strE stmE Hs Hm emd to_os (ILazy o) e I H).
 Qed.
-
-Lemma lazy_unkeyed_verbatim : forall strE stmE to_os o,
-  write_iobj false strE stmE to_os (ILazy o) = Ok (EmTop o).
-Proof. reflexivity. Qed.
 
 Lemma metadata_emd_false_refuted : exists d raw e raw',
   write_iobj true (encryptBytes wit_c []) (encryptStream wit_c []) false (IStream d [] raw) = Ok e /\
